@@ -1,11 +1,20 @@
 (* C15: `knut infer` edits only the placeholder account.
-   op C15.infer  input: "<orig|fixed> <hex placeholder> <hex training> <hex target>"
+   op C15.infer  input: "<fixed|orig> <hex placeholder> <hex training> <hex target>"
+     (first field: model variant; fixed = the repaired code, /repo e8bd689, the default; orig = the code before it,
+      kept for replaying the cases of findings/C15-infer.md)
      observed: OK <hex stdout> ; <Go tree of stdout | REPARSE-ERR> ; <det|nondet>  |  ERR <hex stdout>
      model   : OK <hex> | ERR       (checks/c15.py compares with the first field / "ERR")
                the implementation's choices (read off the observed tree at the placeholder
                positions) are passed to the model as [choose]
      spec    : on the Go tree of the printed text: infer_ok_b against the target, gaps equal,
-               every choice is one of the model's candidates, the text parses, 10 runs agree *)
+               every choice is one of the model's candidates, the text parses, 10 runs agree,
+               and every choice is the one Model/BayesScore.v makes (infer_scored_sems: counts,
+               tokenize, scoreCandidate in sorted token order, first maximum over the sorted
+               candidates) when its abstract float64 operations are instantiated with IEEE double
+               arithmetic and [go_log], a transcription of Go's math.Log for amd64
+               (src/math/log_amd64.s = log.go), and strings.Fields / strings.ToLower with
+               [fields] / [lower] below (ASCII and Latin-1 letters: all the generator uses).
+               This part is TRUSTED transcription, not proved: FAIL:choice-differs-from-model *)
 open Drv_util
 
 let text_of_hex = Drv_c07.text_of_hex
@@ -15,6 +24,60 @@ let digit = K.UnicodeM.is_digit
 module F = K.FmtSpecM
 
 let str_eq (a : K.z list) (b : K.z list) = K.BytesM.str_eqb a b
+
+(* ---- the float64 operations of bayes.go ---- *)
+
+(* math.Log as Go computes it on amd64 (log_amd64.s; the same operations in the same order as
+   log.go), for positive finite normal arguments -- all that scoreCandidate passes *)
+let go_log (x : float) : float =
+  let ln2hi = 6.93147180369123816490e-01 and ln2lo = 1.90821492927058770002e-10
+  and l1 = 6.666666666666735130e-01 and l2 = 3.999999999940941908e-01 and l3 = 2.857142874366239149e-01
+  and l4 = 2.222219843214978396e-01 and l5 = 1.818357216161805012e-01 and l6 = 1.531383769920937332e-01
+  and l7 = 1.479819860511658591e-01 in
+  if Float.is_nan x || x = Float.infinity then x
+  else if x < 0.0 then Float.nan
+  else if x = 0.0 then Float.neg_infinity
+  else begin
+    let f1, ki = Float.frexp x in
+    (* log_amd64.s: cmpnlt HSqrt2, f1 -- "not (HSqrt2 < f1)" *)
+    let f1, ki = if not (7.07106781186547524401e-01 < f1) then (f1 *. 2.0, ki - 1) else (f1, ki) in
+    let f = f1 -. 1.0 in
+    let k = float_of_int ki in
+    let s = f /. (2.0 +. f) in
+    let s2 = s *. s in
+    let s4 = s2 *. s2 in
+    let t1 = s2 *. (l1 +. s4 *. (l3 +. s4 *. (l5 +. s4 *. l7))) in
+    let t2 = s4 *. (l2 +. s4 *. (l4 +. s4 *. l6)) in
+    let r = t1 +. t2 in
+    let hfsq = 0.5 *. f *. f in
+    k *. ln2hi -. ((hfsq -. (s *. (hfsq +. r) +. k *. ln2lo)) -. f)
+  end
+
+(* math.Log(float64(a) / float64(b)) *)
+let flog (a : K.z) (b : K.z) : float = go_log (float_of_int (int_of_z a) /. float_of_int (int_of_z b))
+
+(* strings.Fields: split around runs of white space (ASCII white space, U+0085, U+00A0) *)
+let fields (s : K.z list) : K.z list list =
+  let b = List.map int_of_z s in
+  let rec go acc cur = function
+    | [] -> List.rev (if cur = [] then acc else List.rev cur :: acc)
+    | 0xC2 :: (0x85 | 0xA0) :: r -> go (if cur = [] then acc else List.rev cur :: acc) [] r
+    | c :: r when c = 32 || (c >= 9 && c <= 13) -> go (if cur = [] then acc else List.rev cur :: acc) [] r
+    | c :: r -> go acc (c :: cur) r in
+  List.map (List.map z_of_int) (go [] [] b)
+
+(* strings.ToLower for ASCII and the Latin-1 supplement (U+00C0..U+00DE except U+00D7) *)
+let lower (s : K.z list) : K.z list =
+  let rec go = function
+    | [] -> []
+    | 0xC3 :: c :: r when c >= 0x80 && c <= 0x9E && c <> 0x97 -> 0xC3 :: (c + 0x20) :: go r
+    | c :: r when c >= 65 && c <= 90 -> (c + 32) :: go r
+    | c :: r -> c :: go r in
+  List.map z_of_int (go (List.map int_of_z s))
+
+(* the calls of inferAccount as the model of the choice makes them: Some winner | None *)
+let scored_trace ph (training : F.sem_directive list) (target : F.sem_directive list) : K.z list option list =
+  snd (K.BayesScoreM.infer_scored_sems flog (+.) (fun a b -> a > b) fields lower ph training target)
 
 (* the accounts found in [out] at the sides where [target] has the placeholder, in call order *)
 let read_choices ph (target : F.sem_directive list) (out : F.sem_directive list) : K.z list list option =
@@ -35,7 +98,7 @@ let () =
   register "C15.infer" (fun inp obs ->
     match String.split_on_char ' ' inp with
     | [variant; hph; htr; htg] ->
-      let v = if variant = "fixed" then K.BayesM.Fixed else K.BayesM.Orig in
+      let v = if variant = "orig" then K.BayesM.Orig else K.BayesM.Fixed in
       let ph = text_of_hex hph and training = text_of_hex htr and target = text_of_hex htg in
       let ptr = K.SynM.parse_text letter digit training and ptg = K.SynM.parse_text letter digit target in
       let obs_fields = Drv_c08.split_fields obs in
@@ -76,7 +139,13 @@ let () =
                if !bad_choice then "FAIL:choice-not-a-candidate"
                else if not (K.InferSpecM.infer_ok_b ph tr_sems tg_sems os) then "FAIL:infer_ok_b"
                else if not (F.list_eqb K.BytesM.str_eqb (F.gaps target ftg) (F.gaps ot f)) then "FAIL:gaps-changed"
-               else "ok"
+               else begin
+                 (* the binary's choices against the modelled choice (a left placeholder reads as the placeholder) *)
+                 let expected = List.map (function Some x -> x | None -> ph) (scored_trace ph tr_sems tg_sems) in
+                 match choices with
+                 | Some cs when List.length cs = List.length expected && List.for_all2 str_eq cs expected -> "ok"
+                 | _ -> "FAIL:choice-differs-from-model"
+               end
              | _ -> "FAIL:output-does-not-parse" in
          (model, spec)
        | _ ->
